@@ -44,6 +44,8 @@ def cq_spec(spec):
         return f"(SSeq {kids})"
     if kind == "catch":
         return f"(SCatch {cq_spec(children[0])})"
+    if kind == "all" and payload == 0:
+        return f"(SAll {kids})"
     raise ValueError(kind)
 
 
@@ -114,7 +116,7 @@ class Check(PropertyCheck):
     module = "Props.C01"
     extra_modules = ["Model.EvalTreeCases"]
     theorems = ["C01_sched_refines_spec_partial", "C01_result_stable", "C01_value_xor_error", "C01_reference_decides",
-                "C01_nonvacuous"]
+                "C01_catch_all_positional", "C01_catch_all_nonvacuous", "C01_nonvacuous"]
     assumptions = [
         "task functions are deterministic and terminate (premise of the property)",
         "Coq model covers task calls, failing tasks, parallel containers of calls, seq and catch; lazy operators, partial tasks, expression defaults, cond, catch_all, map_, flat_map, apply_func, fork_thread/join_thread, apply_tags and the thread/process/async executor modes are reached only by the reference-evaluator oracle on the real scheduler",
@@ -139,7 +141,16 @@ class Check(PropertyCheck):
         self.runs = []
         for i in range(n):
             spec = jobgen.gen_spec(self.rng, [], depth=self.rng.randint(1, 4), allow_nocse=False, twins=False,
-                                   allow_fail=(i % 3 != 0))
+                                   allow_fail=(i % 3 != 0), allow_all=(i % 2 == 0), all_modes=(0,))
+            if i % 6 == 5:
+                # catch_all over terms that fail at different depths (position order != completion order)
+                kids = []
+                for j in range(self.rng.randint(2, 4)):
+                    k = (f"cf{i}_{j}", "raise", f"boom{j}", (), None) if self.rng.random() < 0.6 else (f"cl{i}_{j}", "leaf", j, (), None)
+                    for d in range(self.rng.randint(0, 2)):
+                        k = (f"cw{i}_{j}_{d}", "list", 0, (k,), None)
+                    kids.append(k)
+                spec = (f"ca{i}", "all", 0, tuple(kids), None)
             out = sched.run_program(lambda: vm.call(spec), {}, self.rng, complete_prob=self.rng.choice([0.1, 0.4, 0.8]))
             out["spec"] = spec
             self.runs.append(out)
